@@ -93,3 +93,50 @@ func VerifGenBadInput(tsI int, which int) {
 	verifAssert(failed, "C19: harness input was expected to be refused")
 	verifAssert(!verifTouched(verifEvents()), "C19: a refused input ("+msg+") left the output file created or written")
 }
+
+// VerifGenShapes: the optional parts of a grammar file - the %{ %} section (which = 0), the
+// text after the second %% (1), the second %% itself (2) - are left out; the generation must
+// still succeed and produce exactly what it produces with the part present, minus that part
+// (a complete file: tables, driver, remaining user code), created first and closed last.
+func VerifGenShapes(tsI int, which int) {
+	ts := tsI == 1
+	pro := "\npackage gp\n// PROLOGUE-BODY\n"
+	epi := "\nfunc GetToken(input string, valTy *ValType, pos *int) int { return -1 }\n// EPILOGUE-END"
+	body := "%union {\n\tval int\n}\n%token <val> 'n'\n%type <val> L E\n%start L\n%%\nL : { $$ = 0 } | E L { $$ = $1 + $2 }\nE : 'n' { $$ = $1 }\n"
+	full := "%{" + pro + "%}\n" + body + "%%" + epi
+	other, removed := "", ""
+	switch which {
+	case 0:
+		// blank lines instead of the section: the rule line numbers in the emitted comments stay the same
+		other, removed = "\n\n\n\n"+body+"%%"+epi, pro
+	case 1:
+		other, removed = "%{"+pro+"%}\n"+body+"%%", epi
+	default:
+		other, removed = "%{"+pro+"%}\n"+body, epi
+	}
+	failed, msg := verifGen(ts, full)
+	verifAssert(!failed, "C19: harness grammar refused: "+msg)
+	a := verifFragments()
+	verifAssert(len(a) > 200 && verifIndex(a, removed) >= 0, "C19: harness captured no generator output (vacuous)")
+	failed, msg = verifGen(ts, other)
+	verifAssert(!failed, "C19: a grammar without an optional part (prologue section / epilogue / second %%) was refused: "+msg)
+	ev := verifEvents()
+	b := verifFragments()
+	verifCover("shape")
+	k := verifIndex(a, removed)
+	want := a
+	if k >= 0 {
+		want = a[:k] + a[k+len(removed):]
+	}
+	verifAssert(b == want, "C19: without an optional part of the file (prologue section / epilogue / second %%) the output is not the complete output minus that part")
+	verifAssert(len(ev) >= 3 && strings.HasPrefix(ev[0], "create:out.file") && ev[len(ev)-1] == "close", "C19: successful generation did not create the file first and close it last")
+}
+
+func verifIndex(s, sub string) int {
+	for i := 0; i+len(sub) <= len(s); i++ {
+		if s[i:i+len(sub)] == sub {
+			return i
+		}
+	}
+	return -1
+}
